@@ -542,6 +542,10 @@ mod types;
 #[doc(hidden)]
 pub mod test;
 
+#[cfg(cadence_verif)]
+#[doc(hidden)]
+pub mod verif;
+
 // Sinks for sending metrics over Unix datagram sockets
 #[cfg(unix)]
 pub use crate::sinks::{BufferedUnixMetricSink, UnixMetricSink};
